@@ -29,9 +29,13 @@ def _run_one(args) -> Tuple[str, str, str]:
         src = open(src_path, encoding="utf-8").read()
     except OSError:
         return name, "skipped", "file missing"
-    if src.count(old) != 1:
-        return name, "skipped", f"anchor text occurs {src.count(old)} times"
-    mutated = src.replace(old, new)
+    olds = list(old) if isinstance(old, (list, tuple)) else [old]
+    news = list(new) if isinstance(new, (list, tuple)) else [new]
+    mutated = src
+    for o, nw in zip(olds, news):
+        if mutated.count(o) != 1:
+            return name, "skipped", f"anchor text occurs {mutated.count(o)} times"
+        mutated = mutated.replace(o, nw)
     if relfile.endswith(".py"):
         try:
             compile(mutated, relfile, "exec")
